@@ -339,7 +339,7 @@ def main(ck):
         return replay(ck)
 
     ck.coq_audit(["C04"])
-    ok = ck.coq_build(["C04/Props.vo", "C04/Mutants.vo", "C04/Refuted.vo", "C04/Corr.vo"])
+    ok = ck.coq_build(["C04/Props.vo", "C04/Mutants.vo", "C04/Refuted.vo", "C04/Corr.vo"], timeout=2400)
     if ok:
         ck.coq_props(["C04/Props.v", "C04/Mutants.v", "C04/Refuted.v"])
     bin_sched = ck.go_build("./cmd/c04", "c04-sched")
@@ -357,7 +357,7 @@ def main(ck):
             if fn.endswith(".case"):
                 c = json.load(open(os.path.join(corp, fn)))
                 cases.append({"sys": "corpus", "specs": [tuple(a) for a in c["specs"]], "sched": c["sched"], "tag": "corpus:" + fn})
-        cases += gen_schedules(ck, 260 if thorough else 60, 220 if thorough else 32, rng)
+        cases += gen_schedules(ck, 300 if thorough else 70, 220 if thorough else 24, rng)
         ck.log("forced schedules:", len(cases))
         outs = run_sched_cases(ck, bin_sched, cases)
         good = []
@@ -376,7 +376,10 @@ def main(ck):
             c["obs"] = {r: [q or [] for q in (o["results"].get(r) or [])][:n] for r, n in nq.items()}
             if o.get("stuck") or o.get("err"):
                 if "PANIC" in (o.get("err") or ""):
-                    ck.violation({"kind": "forced-schedule-panic", "case": {"specs": c["specs"], "sched": c["sched"]}, "what": o["err"][:4000]})
+                    n_panic = getattr(ck, "_c04_panics", 0)
+                    ck._c04_panics = n_panic + 1
+                    if n_panic < 2:
+                        ck.violation({"kind": "forced-schedule-panic", "case": {"specs": c["specs"], "sched": c["sched"]}, "what": o["err"][:4000]})
                 else:
                     ck.broken.append("forced schedule %d (%s) could not be forced on the implementation: %s" % (i, c["tag"], (o.get("err") or "")[:300]))
                     ck.nofail_detail = {"kind": "forced-schedule", "case": {"specs": c["specs"], "sched": c["sched"]}, "harness": o}
@@ -414,6 +417,8 @@ def main(ck):
             if not fails:
                 continue
             oracle_failed = True
+            if len(ck.violations) >= 3:
+                continue
             what = "forced schedule %s: query %d of reader %d misses acknowledged batch(es) %s" % (c["tag"], fails[0][1], fails[0][0], fails[0][2])
             if in_orphan_signature(c["specs"], c["sched"]) and ck.match_finding(ORPHAN):
                 ck.known_finding(ORPHAN, "a flush that fetched the out-of-order list object before an out-of-order merge deleted it "
@@ -437,7 +442,7 @@ def main(ck):
                 ck.nofail_detail = {"kind": "correspondence", "case": {"specs": c["specs"], "sched": c["sched"]}, "views": c["obs"]}
 
     # ---------------------------------------------------------------- (b) free-running stress under the race detector
-    rounds, ms = (30, 20000) if thorough else (2, 9000)
+    rounds, ms = (30, 20000) if thorough else (2, 8000)
     racelog = os.path.join(ck.work, "race")
     rc, out = ck.run([bin_race, "stress", str(rounds), str(ms)], timeout=rounds * (ms / 1000.0 + 150) + 300,
                      env={"GORACE": "halt_on_error=0 log_path=%s" % racelog})
